@@ -110,6 +110,9 @@ pub enum Op {
     SelectFrame(u32),
     /// C14: watch a local variable by name (scoped watchpoint with a companion breakpoint)
     WatchExpr(String, bool),
+    /// fault: a signal (default action: ignore) is sent to the stopped debuggee from outside; it
+    /// is pending when the next command resumes the program
+    SignalAtPrompt(i32),
 }
 
 #[derive(Debug)]
@@ -190,6 +193,8 @@ pub struct Session<'a> {
     pub scoped_added_at: BTreeMap<u32, usize>,
     /// the history ends here: the debugger's breakpoint table no longer matches what the user set
     pub truncate: bool,
+    /// a signal sent at the prompt that the next resuming command must run into
+    pub pending_sig: Option<i32>,
     /// the text ledger had no complaint after the previous operation
     pub ledger_clean_before_op: bool,
     /// companion breakpoints learned from the text ledger: address -> watch numbers
@@ -253,6 +258,7 @@ impl<'a> Session<'a> {
             scoped: BTreeMap::new(),
             scoped_added_at: BTreeMap::new(),
             truncate: false,
+            pending_sig: None,
             ledger_clean_before_op: true,
             companions: BTreeMap::new(),
         })
@@ -365,8 +371,9 @@ impl<'a> Session<'a> {
                     (Where::Foreign { lb, .. }, _) => lb + 1,
                     (Where::Exited, _) => 0,
                 };
-                // a failed op must not have moved the program
-                let from = if matches!(outcome, Outcome::Err(_)) { from.saturating_sub(1) } else { from };
+                // a failed op must not have moved the program; neither has one that ran into a
+                // signal that was pending at the prompt
+                let from = if matches!(outcome, Outcome::Err(_)) || self.pending_sig.is_some() { from.saturating_sub(1) } else { from };
                 let (w, t) = self.observe(from);
                 self.pos = w;
                 obs = t;
@@ -510,7 +517,10 @@ impl<'a> Session<'a> {
                     }
                     Outcome::Done
                 }
-                Err(e) => Outcome::Err(err_str(&e)),
+                Err(e) => {
+                    self.sync_watches_after_failed_remove(dbg);
+                    Outcome::Err(err_str(&e))
+                }
             },
             Op::RmWatchAddr(a) => match dbg.remove_watchpoint_by_addr(RelocatedAddress::from(*a)) {
                 Ok(v) => {
@@ -524,7 +534,10 @@ impl<'a> Session<'a> {
                     }
                     Outcome::Done
                 }
-                Err(e) => Outcome::Err(err_str(&e)),
+                Err(e) => {
+                    self.sync_watches_after_failed_remove(dbg);
+                    Outcome::Err(err_str(&e))
+                }
             },
             Op::Detach => {
                 crate::seam::install_world(Box::new(DetachProbe { pid: self.pid, done: false, report: None }));
@@ -546,7 +559,7 @@ impl<'a> Session<'a> {
             Op::WatchExpr(name, rw) => {
                 let before = self.patched_exe_addrs();
                 let cond = if *rw { BreakCondition::DataReadsWrites } else { BreakCondition::DataWrites };
-                match dbg.set_watchpoint_on_expr(name, Dqe::Variable(Selector::by_name(name, true)), cond) {
+                match dbg.set_watchpoint_on_expr(name, Dqe::Variable(Selector::by_name(name, false)), cond) {
                     Ok(v) => {
                         let sz = match v.size {
                             BreakSize::Bytes1 => 1,
@@ -589,6 +602,15 @@ impl<'a> Session<'a> {
                     }
                     Err(e) => Outcome::Err(err_str(&e)),
                 }
+            }
+            Op::SignalAtPrompt(sig) => {
+                if matches!(self.pos, Where::At(_)) && self.pending_sig.is_none() && !ns::sig_pending(self.pid, self.pid, *sig) {
+                    if raw::tgkill(self.pid, self.pid, *sig) == 0 {
+                        self.pending_sig = Some(*sig);
+                        bump(&mut self.stats, "c10.signal_sent_at_prompt");
+                    }
+                }
+                Outcome::Done
             }
             Op::SelectFrame(k) => match dbg.set_frame_into_focus(*k) {
                 Ok(n) => {
@@ -979,6 +1001,23 @@ impl<'a> Session<'a> {
         out
     }
 
+    /// Removing a watchpoint once the process is gone reports the failed register update
+    /// (ESRCH) but the entry is dropped all the same: the model follows the debugger's list then.
+    /// With a live process a failed removal must leave everything as it was (checked by the
+    /// register image / list comparison that follows every operation).
+    fn sync_watches_after_failed_remove(&mut self, dbg: &Debugger) {
+        if self.pos != Where::Exited {
+            return;
+        }
+        let listed: BTreeSet<u32> = dbg.watchpoint_list().iter().map(|w| w.number).collect();
+        for n in self.watches.keys().copied().collect::<Vec<_>>() {
+            if !listed.contains(&n) {
+                self.forget_watch(n);
+                bump(&mut self.stats, "c14.remove_after_exit_reported_error_but_removed");
+            }
+        }
+    }
+
     fn forget_watch(&mut self, num: u32) {
         self.watches.remove(&num);
         self.scoped.remove(&num);
@@ -1114,6 +1153,26 @@ impl<'a> Session<'a> {
     fn check_continue(&mut self, op: &Op, before: Where, outcome: &Outcome, evs: &[Ev], obs: Option<(u64, u64, u64)>) {
         if matches!(op, Op::Start) && matches!(before, Where::NotStarted) && !matches!(outcome, Outcome::Err(_)) && self.pos != Where::Exited {
             self.sync_armed_after_start();
+        }
+        if let (Some(sig), Where::At(i)) = (self.pending_sig, before) {
+            // the pending signal is delivered before the program executes anything
+            self.pending_sig = None;
+            bump(&mut self.stats, "c10.resume_with_pending_signal_checked");
+            match outcome {
+                Outcome::Stop(StopKind::Signal(s)) if *s == sig => {
+                    if self.pos != Where::At(i) {
+                        self.violate("C10", "signal_stop_position", format!("signal {sig} was pending at the prompt; continue reported it but the program moved from ref index {i} to {:?}", self.pos));
+                    }
+                    if evs.iter().filter(|e| matches!(e, Ev::Signal(x) if *x == sig)).count() != 1 {
+                        self.violate("C10", "signal_hook_count", format!("on_signal calls for one reported signal stop: {}", evs.iter().filter(|e| matches!(e, Ev::Signal(_))).count()));
+                    }
+                }
+                other => {
+                    let d = format!("signal {sig} was pending when `continue` resumed the program at ref index {i}; the command ended with {other:?} at {:?} without reporting it", self.pos);
+                    self.violate("C10", "pending_signal_not_reported", d);
+                }
+            }
+            return;
         }
         let b = self.armed_set();
         let after = match (before, op) {
@@ -1254,6 +1313,23 @@ impl<'a> Session<'a> {
         };
         if evs.iter().any(|e| matches!(e, Ev::Watchpoint { .. })) {
             bump(&mut self.stats, "c03.cut_short_by_end_of_scope");
+            return;
+        }
+        if self.pending_sig.is_none() && evs.iter().any(|e| matches!(e, Ev::Signal(_))) {
+            // cut short by a signal and says so (C10 judges whether that signal should exist)
+            bump(&mut self.stats, "c03.cut_short_by_signal");
+            return;
+        }
+        if let Some(sig) = self.pending_sig.take() {
+            // "a step cut short by a ... signal ... says so": the signal is delivered before the
+            // first instruction of the step
+            bump(&mut self.stats, "c03.step_with_pending_signal_checked");
+            let said = evs.iter().any(|e| matches!(e, Ev::Signal(x) if *x == sig));
+            if !said {
+                self.violate("C03", "step_cut_short_by_signal_not_reported", format!("{op:?} at ref index {i} with signal {sig} pending ended at {:?} with events {evs:?} and never reported the signal", self.pos));
+            } else if self.pos != Where::At(i) {
+                self.violate("C03", "signal_cut_step_moved", format!("{op:?} reported signal {sig} but the program moved from ref index {i} to {:?}", self.pos));
+            }
             return;
         }
         let tr = self.tr;
@@ -1403,8 +1479,17 @@ impl<'a> Session<'a> {
                     return;
                 }
                 let cut = at_bp && reported_bp;
+                // a line may own several statement rows (bounds check, then the store): stopping at
+                // a later row of the *same* line, with no boundary of another line in between, skips
+                // no line
+                let same_line_later_row = |s: &Self, js: usize, j: usize| -> bool {
+                    let lj = s.lines_at(tr.pos[js].rip);
+                    (js + 1..=j).all(|k| tr.pos[k].act != tr.pos[js].act || !s.is_stmt(tr.pos[k].rip) || s.lines_at(tr.pos[k].rip) == lj || s.lt.in_inlined(tr.pos[k].rip - tr.base)) && tr.pos[j].act == tr.pos[js].act
+                };
                 if let Some(js) = jstar {
-                    if j > js {
+                    if j > js && same_line_later_row(self, js, j) {
+                        bump(&mut self.stats, "c03.stopped_at_later_row_of_the_admissible_line");
+                    } else if j > js {
                         let d = format!("{kind} from ref index {i} ({} lines {:?}) landed at {j} ({} lines {:?}), later than the latest admissible stop {js} ({} lines {:?})", self.off(tr.pos[i].rip), l, self.off(tr.pos[j].rip), self.lines_at(tr.pos[j].rip), self.off(tr.pos[js].rip), self.lines_at(tr.pos[js].rip));
                         let at_pe = self.lt.rows_at(tr.pos[js].rip - tr.base).iter().any(|r| r.prologue_end);
                         let inv = if matches!(op, Op::Next) && self.after_first_epilogue(tr.pos[i].rip, tr.pos[js].rip) {
@@ -1488,6 +1573,7 @@ impl<'a> Session<'a> {
             return;
         }
         bump(&mut self.stats, "c11.restart_checked");
+        self.pending_sig = None;
         for num in self.scoped.keys().copied().collect::<Vec<_>>() {
             // watchpoints on locals do not survive the process
             self.forget_watch(num);
@@ -2027,24 +2113,25 @@ struct Mix {
     end: usize,
     mem: usize,
     sel: usize,
+    sig: usize,
 }
 
 fn mix_for(property: &str) -> Mix {
     match property {
-        "C01" => Mix { bp: 30, rm: 14, cont: 44, stepi: 8, step: 1, next: 1, finish: 2, restart: 0, call: 0, watch: 3, end: 0, mem: 0, sel: 0 },
-        "C03" => Mix { bp: 8, rm: 3, cont: 14, stepi: 15, step: 22, next: 22, finish: 16, restart: 0, call: 0, watch: 0, end: 0, mem: 0, sel: 0 },
-        "C05" => Mix { bp: 12, rm: 3, cont: 25, stepi: 30, step: 10, next: 5, finish: 10, restart: 0, call: 0, watch: 0, end: 0, mem: 0, sel: 18 },
-        "C11" => Mix { bp: 20, rm: 6, cont: 30, stepi: 6, step: 5, next: 5, finish: 5, restart: 5, call: 2, watch: 5, end: 8, mem: 0, sel: 0 },
-        "C14" => Mix { bp: 8, rm: 2, cont: 18, stepi: 6, step: 2, next: 2, finish: 6, restart: 6, call: 0, watch: 48, end: 2, mem: 0, sel: 0 },
-        "C15" => Mix { bp: 12, rm: 3, cont: 16, stepi: 5, step: 3, next: 3, finish: 4, restart: 1, call: 0, watch: 0, end: 1, mem: 52, sel: 0 },
-        "C16" => Mix { bp: 14, rm: 4, cont: 22, stepi: 8, step: 5, next: 5, finish: 5, restart: 1, call: 34, watch: 1, end: 1, mem: 0, sel: 0 },
-        _ => Mix { bp: 16, rm: 8, cont: 22, stepi: 8, step: 10, next: 10, finish: 10, restart: 3, call: 5, watch: 10, end: 3, mem: 0, sel: 0 },
+        "C01" => Mix { bp: 30, rm: 14, cont: 44, stepi: 8, step: 1, next: 1, finish: 2, restart: 0, call: 0, watch: 3, end: 0, mem: 0, sel: 0, sig: 0 },
+        "C03" => Mix { bp: 8, rm: 3, cont: 14, stepi: 15, step: 22, next: 22, finish: 16, restart: 0, call: 0, watch: 0, end: 0, mem: 0, sel: 0, sig: 6 },
+        "C05" => Mix { bp: 12, rm: 3, cont: 25, stepi: 30, step: 10, next: 5, finish: 10, restart: 0, call: 0, watch: 0, end: 0, mem: 0, sel: 18, sig: 0 },
+        "C11" => Mix { bp: 20, rm: 6, cont: 30, stepi: 6, step: 5, next: 5, finish: 5, restart: 5, call: 2, watch: 5, end: 8, mem: 0, sel: 0, sig: 0 },
+        "C14" => Mix { bp: 8, rm: 2, cont: 18, stepi: 6, step: 2, next: 2, finish: 6, restart: 6, call: 0, watch: 48, end: 2, mem: 0, sel: 0, sig: 0 },
+        "C15" => Mix { bp: 12, rm: 3, cont: 16, stepi: 5, step: 3, next: 3, finish: 4, restart: 1, call: 0, watch: 0, end: 1, mem: 52, sel: 0, sig: 0 },
+        "C16" => Mix { bp: 14, rm: 4, cont: 22, stepi: 8, step: 5, next: 5, finish: 5, restart: 1, call: 34, watch: 1, end: 1, mem: 0, sel: 0, sig: 0 },
+        _ => Mix { bp: 16, rm: 8, cont: 22, stepi: 8, step: 10, next: 10, finish: 10, restart: 3, call: 5, watch: 10, end: 3, mem: 0, sel: 0, sig: 3 },
     }
 }
 
 fn gen_op(s: &Session, t: &mut Tape, mix: &Mix, stmt_lines: &[u64], fns: &[String]) -> Op {
     let tr = s.tr;
-    let total = mix.bp + mix.rm + mix.cont + mix.stepi + mix.step + mix.next + mix.finish + mix.restart + mix.call + mix.watch + mix.end + mix.mem + mix.sel;
+    let total = mix.bp + mix.rm + mix.cont + mix.stepi + mix.step + mix.next + mix.finish + mix.restart + mix.call + mix.watch + mix.end + mix.mem + mix.sel + mix.sig;
     let mut k = t.choose(total);
     let mut take = |w: usize| {
         if k < w {
@@ -2138,6 +2225,9 @@ fn gen_op(s: &Session, t: &mut Tape, mix: &Mix, stmt_lines: &[u64], fns: &[Strin
                 let a = if t.chance(1, 8) { base + slot * 8 + 1 + t.choose(6) as u64 } else { base + slot * 8 };
                 Op::WatchMem(a, sz, t.chance(1, 2))
             }
+            // with several watchpoints on locals alive, removing the oldest one first is the
+            // order in which shared end-of-scope bookkeeping goes wrong
+            6 if s.scoped.len() >= 2 => Op::RmWatchNum(*s.scoped.keys().next().unwrap()),
             6 | 7 if !wl.is_empty() => Op::RmWatchNum(wl[t.choose(wl.len())].0),
             8 if !wl.is_empty() => Op::RmWatchAddr(wl[t.choose(wl.len())].1),
             _ => {
@@ -2154,6 +2244,10 @@ fn gen_op(s: &Session, t: &mut Tape, mix: &Mix, stmt_lines: &[u64], fns: &[Strin
     }
     if take(mix.mem) {
         return gen_mem_op(s, t);
+    }
+    if take(mix.sig) {
+        // SIGWINCH and SIGCONT: not quiet for the debugger, ignored by default by the program
+        return Op::SignalAtPrompt(28);
     }
     if take(mix.sel) {
         let depth = match s.pos {
@@ -2254,7 +2348,7 @@ pub fn run(spec: &WorkerSpec) -> WorkerResult {
     // before start: a few breakpoint requests
     let pre = tape.choose(4);
     for _ in 0..pre {
-        let m = Mix { bp: 10, rm: 2, cont: 0, stepi: 0, step: 0, next: 0, finish: 0, restart: 0, call: 0, watch: 0, end: 0, mem: 0, sel: 0 };
+        let m = Mix { bp: 10, rm: 2, cont: 0, stepi: 0, step: 0, next: 0, finish: 0, restart: 0, call: 0, watch: 0, end: 0, mem: 0, sel: 0, sig: 0 };
         let op = gen_op(&s, &mut tape, &m, &stmt_lines, &fns);
         s.exec(&op);
     }
